@@ -485,6 +485,12 @@ func (s *recordingSpan) End(options ...trace.SpanEndOption) {
 		s.mu.Unlock()
 		s.executionTracerTaskEnd()
 		s.mu.Lock()
+		// The span may have been ended by a concurrent call to End while the
+		// lock was released.
+		if !s.isRecording() {
+			s.mu.Unlock()
+			return
+		}
 	}
 
 	// Setting endTime to non-zero marks the span as ended and not recording.
